@@ -104,6 +104,12 @@ def payloadsOf : List SEv → List (List Nat)
   | .pkt _ (some p) :: r => p.2 :: payloadsOf r
   | _ :: r => payloadsOf r
 
+/-- the chunks the application's Writes were cut into -/
+def chunksOf : List SEv → List (List Nat)
+  | [] => []
+  | .wr _ cs :: r => cs ++ chunksOf r
+  | .pkt _ _ :: r => chunksOf r
+
 /-- the answers given to the packet requests of the trace (in order): the answers to `sid`'s owner that carry
     stream data -/
 def ansTraceFrom (cd : Codec) (dom : List Nat) (sid : Nat) : Srv → List Op → List Ans
